@@ -32,7 +32,9 @@ pub trait RwsCursor {
             r.is_ok(),
             r.unwrap() == line_len(old(self).crem()),
             final(buf)@ == old(buf)@ + old(self).crem().subrange(0, line_len(old(self).crem())),
-            final(self).crem() == old(self).crem().subrange(line_len(old(self).crem()), old(self).crem().len() as int);
+            final(self).crem() == old(self).crem().subrange(line_len(old(self).crem()), old(self).crem().len() as int),
+            final(self).crem().len() + r.unwrap() == old(self).crem().len(),
+            old(self).crem().len() > 0 ==> r.unwrap() > 0;
     fn rws_read_to_end(&mut self, buf: &mut Vec<u8>) -> (r: Result<usize, std::io::Error>)
         ensures
             r.is_ok(),
